@@ -86,6 +86,7 @@ def run(ctx, rep):
     check_from_bit_size(rep, FD)
     check_verify(rep, P, F)
     check_field_writers(rep, P, F)
+    _relaxed_range(ctx, rep)
 
 
 def _nbytes(r, o):
@@ -246,3 +247,23 @@ def check_field_writers(rep, P, F):
 
     for c in callers:
         visit(c, c, 0)
+
+
+def _relaxed_range(ctx, rep):
+    """After a relaxation the value is range-checked (and written) with the row of the *replacement* relocation type the relaxation names. The psABI fixes that type
+    by the rewritten instruction's operand form (zero-extended imm32 -> R_X86_64_32, sign-extended -> 32S, ...): a wrong choice rejects values the instruction can
+    hold or lets through values it silently changes. Same oracle rule as C14 `pairs` (shared implementation), reported here for the range it selects."""
+    import C14
+    import framework
+    sub = framework.Report("C14")
+    C14.run(ctx, sub)
+    rep.rule("relaxed-range", "each relaxation of ElfX86_64::new_relaxation names the replacement relocation type - hence the range - that the psABI assigns to the rewritten "
+             "instruction form (C14's `pairs` oracle rule, shared)")
+    n = 0
+    for o in sub.obligations:
+        if o["rule"] == "pairs":
+            n += 1
+            w = o.get("where", "") or ""
+            f, _, l = w.rpartition(":")
+            rep.ob("relaxed-range", o["instance"], o["ok"], o["detail"], f or None, int(l) if l.isdigit() else None)
+    rep.floor("relaxed-range", "shared obligations", n, 15)
